@@ -870,3 +870,130 @@ def rule_snode_ld(mod, rep, pats=("sp_?trsv", "?gstrs", "?PivotGrowth"), floor=4
             rep.check(bad is None, "SNODE-LD", "%s#Lval" % f.name, "%d accesses to L's values: every column stride is the row count of the supernode" % n,
                       "the access at %s addresses L's values with the product %s, which is not the row count nsupr of the supernode: inside the supernode, columns after the first "
                       "are read at the wrong place" % (bad[0].loc if bad else "", "*".join(bad[1]) if bad else ""), bad[0].loc if bad else f.file, f.name)
+
+
+# ---------------------------------------------------------------------------------------------------------------------------------
+# LUSUP-STATIC (C05): in the static scheme the supernode storage is allocated with the predicted bound, unreduced
+# ---------------------------------------------------------------------------------------------------------------------------------
+def rule_lusup_static(mod, rep):
+    rep.rule("LUSUP-STATIC", "p?gstrf_MemInit, static scheme (Glu->dynamic_snode_bound != YES): ?PresetMap has laid out every supernode inside Glu->nzlumax values and "
+             "Glu_alloc(LUSUP) performs no capacity test in this scheme, so the count handed to p?gstrf_expand(.., LUSUP, ..) is the loaded Glu->nzlumax itself: every "
+             "definition of the count that reaches the call along edges that are feasible for dynamic_snode_bound = NO is that load (a tunable estimate such as "
+             "sp_ienv(6)*nnz(A), or the smaller of the two, lets supernodes whose slot lies beyond it be written outside lusup[] with info = 0)", floor=4)
+    e = mod.enums
+    for prec, f in fam(mod, "p?gstrf_MemInit"):
+        rep.scope([f.name])
+        calls = [c for c in f.calls("p%sgstrf_expand" % prec) if len(c.ops) > 1 and is_const(strip_casts(f, c.ops[1]), e["LUSUP"])]
+        if not calls:
+            rep.brk("ANALYSIS-BROKEN LUSUP-STATIC: %s has no p?gstrf_expand(.., LUSUP, ..) call" % f.name)
+            continue
+        first = min(calls, key=lambda c: c.i)
+        cell = f.paths(first.ops[0])
+        if not cell or not all(len(p) == 1 and p[0][0] == "L" for p in cell):
+            rep.brk("ANALYSIS-BROKEN LUSUP-STATIC: the count of the LUSUP request in %s is not a local cell" % f.name)
+            continue
+        dead = set()
+        for b in f.blocks:
+            t = b.insts[-1]
+            if t.op != "br" or not t.ops or t.ops[0][0] != "v" or len(t.tgt) < 2:
+                continue
+            c = f.inst[t.ops[0][1]]
+            if c.op != "icmp" or c.pred not in ("eq", "ne"):
+                continue
+            for k in (0, 1):
+                a = strip_casts(f, c.ops[k]); o = strip_casts(f, c.ops[1 - k])
+                if a[0] == "v" and f.inst[a[1]].op == "load" and any(p and p[-1][0] == "f" and p[-1][2] == "dynamic_snode_bound" for p in f.addr_paths(f.inst[a[1]])) and o[0] == "c":
+                    val = (e["NO"] == o[1]) if c.pred == "eq" else (e["NO"] != o[1])
+                    dead.add((b.id, t.tgt[1] if val else t.tgt[0]))
+        stores = [s for s in f.insts() if s.op == "store" and f.addr_paths(s) == cell]
+        bad = None; n = 0
+        for s in stores:
+            R = f.reach([s], stop=lambda x: x.op == "store" and f.addr_paths(x) == cell, dead_edges=dead)
+            if first.i not in R:
+                continue
+            # is the store itself on a path that is live for the static scheme?
+            R0 = f.reach([f.blocks[0].insts[0]], dead_edges=dead, include_start=True)
+            if s.i not in R0:
+                continue
+            n += 1
+            v = strip_casts(f, s.ops[0])
+            ok = v[0] == "v" and f.inst[v[1]].op == "load" and any(p and p[-1][0] == "f" and p[-1][2] == "nzlumax" for p in f.addr_paths(f.inst[v[1]]))
+            if not ok:
+                bad = s
+        if n == 0:
+            rep.brk("ANALYSIS-BROKEN LUSUP-STATIC: no definition of the LUSUP count reaches the request in %s" % f.name)
+            continue
+        rep.check(bad is None, "LUSUP-STATIC", "%s#lusup-count" % f.name, "%d reaching definition(s), all the preset bound" % n,
+                  "in the static scheme the value stored at %s reaches the LUSUP request at %s and is not the preset bound Glu->nzlumax: supernode slots beyond it lie outside lusup[]"
+                  % (bad.loc if bad else "", first.loc), bad.loc if bad else f.file, f.name)
+
+
+# ---------------------------------------------------------------------------------------------------------------------------------
+# OPT-INIT (C18): the simple driver's option block is an uninitialised automatic: p?gstrf_init defines every field that is read
+# ---------------------------------------------------------------------------------------------------------------------------------
+def rule_options_init(mod, rep):
+    rep.rule("OPT-INIT", "p?gssv hands an uninitialised automatic superlumt_options_t to p?gstrf_init: every field of that structure that any routine reachable from p?gssv reads "
+             "is stored by p?gstrf_init on every path to its return (or by p?gssv itself before the first use) - a field left to the caller keeps whatever earlier calls left "
+             "at that stack address, and the result of a first-time call then depends on the call history", floor=40)
+    for prec, f in fam(mod, "p?gssv"):
+        rep.scope([f.name])
+        init = mod.funcs.get("p%sgstrf_init" % prec)
+        if init is None:
+            rep.brk("ANALYSIS-BROKEN OPT-INIT: p%sgstrf_init not found" % prec)
+            continue
+        ko = init.pindex("superlumt_options")
+        # must-written fields of init: with the branches on init's own by-value parameters decided by the constants p?gssv passes (refact = NO), no return is reachable
+        # from the entry without passing a store to the field
+        call = [c for c in f.calls(init.name)]
+        dead = set()
+        if call:
+            cargs = {k: strip_casts(f, o) for k, o in enumerate(call[0].ops)}
+            for b in init.blocks:
+                t = b.insts[-1]
+                if t.op != "br" or not t.ops or t.ops[0][0] != "v" or len(t.tgt) < 2:
+                    continue
+                c = init.inst[t.ops[0][1]]
+                if c.op != "icmp" or c.pred not in ("eq", "ne"):
+                    continue
+                for k in (0, 1):
+                    a = strip_casts(init, c.ops[k]); o = strip_casts(init, c.ops[1 - k])
+                    if a[0] == "a" and o[0] == "c" and a[1] in cargs and cargs[a[1]][0] == "c":
+                        val = (cargs[a[1]][1] == o[1]) if c.pred == "eq" else (cargs[a[1]][1] != o[1])
+                        dead.add((b.id, t.tgt[1] if val else t.tgt[0]))
+        fields = {}
+        for s in init.insts():
+            if s.op != "store":
+                continue
+            for p in init.addr_paths(s):
+                if len(p) == 2 and p[0] == ("A", ko) and p[1][0] == "f" and p[1][1] == "superlumt_options_t":
+                    fields.setdefault(p[1][2], set()).add(s.i)
+        must = set()
+        for fld, sts in fields.items():
+            R = init.reach([init.blocks[0].insts[0]], stop=lambda x, sts=sts: x.i in sts, dead_edges=dead, include_start=True)
+            if not any(init.inst[i].op == "ret" for i in R):
+                must.add(fld)
+        for s in f.insts():
+            if s.op == "store":
+                for p in f.addr_paths(s):
+                    if len(p) == 2 and p[0][0] == "L" and p[1][0] == "f" and p[1][1] == "superlumt_options_t":
+                        must.add(p[1][2])
+        # fields read anywhere below p?gssv
+        reach = mod.transitive_callees([f.name])
+        read = {}
+        for gn in sorted(reach | {f.name}):
+            g = mod.funcs.get(gn)
+            if g is None or not g.blocks:
+                continue
+            for L in g.insts():
+                if L.op != "load":
+                    continue
+                for p in g.addr_paths(L):
+                    if len(p) >= 2 and p[-1][0] == "f" and p[-1][1] == "superlumt_options_t":
+                        read.setdefault(p[-1][2], L)
+        if not read:
+            rep.brk("ANALYSIS-BROKEN OPT-INIT: no read of an option field below %s" % f.name)
+            continue
+        for fld, L in sorted(read.items()):
+            rep.check(fld in must, "OPT-INIT", "%s#%s" % (f.name, fld), "options->%s is defined by p?gstrf_init / the driver" % fld,
+                      "options->%s is read at %s (%s) but neither p%sgstrf_init (on every path) nor %s stores it: the simple driver passes an uninitialised automatic structure, so the "
+                      "value is whatever an earlier call left on the stack" % (fld, L.loc, L.fn.name, prec, f.name), L.loc, f.name)
